@@ -273,6 +273,17 @@ func (f *fakeT) FailNow()                                  { panic(failNow{}) }
 func (f *fakeT) Cleanup(fn func())                         { f.cleanups = append(f.cleanups, fn) }
 func (f *fakeT) Helper()                                   {}
 
+// the rest of what *testing.T offers a generated mock: a constructor that asks its argument about the state of the
+// test (interface{ Failed() bool }, Name, Fail, ...) gets the answers a real test would give
+func (f *fakeT) Failed() bool                              { return len(f.errors) > 0 }
+func (f *fakeT) Fail()                                     { f.errors = append(f.errors, "Fail()") }
+func (f *fakeT) Name() string                              { return "TestDriver" }
+func (f *fakeT) Skipped() bool                             { return false }
+func (f *fakeT) Log(args ...interface{})                   {}
+func (f *fakeT) Error(args ...interface{})                 { f.errors = append(f.errors, fmt.Sprint(args...)) }
+func (f *fakeT) Fatalf(format string, args ...interface{}) { f.Errorf(format, args...); f.FailNow() }
+func (f *fakeT) Fatal(args ...interface{})                 { f.Error(args...); f.FailNow() }
+
 // tokv: a variadic parameter as seen by a callback; an empty one is the nil one
 func tokv(ti int, v any) string {
 	if reflect.ValueOf(v).Len() == 0 {
